@@ -343,6 +343,9 @@ func (p *_Loader) Import(pkgpath string) (*types.Package, error) {
 		}
 		filenames = pkgFileNames
 		pkg.Files = pkgFiles
+		if len(pkg.Files) == 0 {
+			return nil, fmt.Errorf("%s: build constraints exclude all source files", pkgpath)
+		}
 	}
 
 	// 修复 pkg 名称(wa 是可选)
